@@ -264,23 +264,33 @@ def binaryNamesOf (r : OpRec) : List Str :=
   else if r.name == nMap then [nMap]
   else [r.name]
 
+/-- what one table record adds to `precedence_dict` -/
+def pdictStep (d : PDict) (r : OpRec) : PDict :=
+  let d1 := if r.up ≠ 0 then d.extend (unaryKey r) [unaryNameOf r] else d
+  if r.bp ≠ 0 then d1.extend (binaryKey r) (binaryNamesOf r) else d1
+
+/-- ... to `unary_doc` -/
+def unaryDocStep (doc : Str) (r : OpRec) : Str :=
+  if r.up ≠ 0 then
+    let head : Str := if doc.isEmpty then ['v', 'a', 'l', 'u', 'e', ' ', ':', ' '] else ['\n', '|', ' ']
+    let spec : Str := if r.up > 0 then r.name ++ [' ', 'v', 'a', 'l', 'u', 'e'] else ['v', 'a', 'l', 'u', 'e', ' '] ++ r.name
+    let spec : Str := if r.bp ≠ 0 then spec ++ [' ', '%', 'p', 'r', 'e', 'c', ' ', 'U', 'N', 'A', 'R', 'Y', '_'] ++ r.name else spec
+    doc ++ head ++ spec
+  else doc
+
+/-- ... to `binary_doc` (`INDEXER` and `MAP` have rules of their own) -/
+def binaryDocStep (doc : Str) (r : OpRec) : Str :=
+  if r.bp ≠ 0 && !(r.name == nIndexer || r.name == nMap) then
+    let head : Str := if doc.isEmpty then ['v', 'a', 'l', 'u', 'e', ' ', ':', ' '] else ['\n', '|', ' ']
+    doc ++ head ++ ['v', 'a', 'l', 'u', 'e', ' '] ++ r.name ++ [' ', 'v', 'a', 'l', 'u', 'e']
+  else doc
+
+/-- one iteration of `for up, bp, op_name, op_alias in yaql_operators.operators.values()` -/
 def funcsStep (f : Funcs) (r : OpRec) : Funcs :=
-  let f := { f with aliases := f.aliases.set r.name r.alias }
-  let f :=
-    if r.up ≠ 0 then
-      let head : Str := if f.unaryDoc.isEmpty then ['v', 'a', 'l', 'u', 'e', ' ', ':', ' '] else ['\n', '|', ' ']
-      let spec : Str := if r.up > 0 then r.name ++ [' ', 'v', 'a', 'l', 'u', 'e'] else ['v', 'a', 'l', 'u', 'e', ' '] ++ r.name
-      let spec : Str := if r.bp ≠ 0 then spec ++ [' ', '%', 'p', 'r', 'e', 'c', ' ', 'U', 'N', 'A', 'R', 'Y', '_'] ++ r.name else spec
-      { f with pdict := f.pdict.extend (unaryKey r) [unaryNameOf r],
-               unaryDoc := f.unaryDoc ++ head ++ spec }
-    else f
-  if r.bp ≠ 0 then
-    let f := { f with pdict := f.pdict.extend (binaryKey r) (binaryNamesOf r) }
-    if r.name == nIndexer || r.name == nMap then f
-    else
-      let head : Str := if f.binaryDoc.isEmpty then ['v', 'a', 'l', 'u', 'e', ' ', ':', ' '] else ['\n', '|', ' ']
-      { f with binaryDoc := f.binaryDoc ++ head ++ ['v', 'a', 'l', 'u', 'e', ' '] ++ r.name ++ [' ', 'v', 'a', 'l', 'u', 'e'] }
-  else f
+  { binaryDoc := binaryDocStep f.binaryDoc r,
+    unaryDoc := unaryDocStep f.unaryDoc r,
+    pdict := pdictStep f.pdict r,
+    aliases := f.aliases.set r.name r.alias }
 
 def funcsOf (t : Table) : Funcs := (t.ops.map (·.2)).foldl funcsStep {}
 
